@@ -57,7 +57,10 @@ func (mf *memorySegmentFile) close() (err error) {
 }
 
 func (mf *memorySegmentFile) get() (io.Reader, int, error) {
-	data := mf.file.Bytes()
+	// delete() returns the buffer to segmentPool and the next segment rewrites
+	// its array while an HTTP response may still be reading: hand out a copy
+	// (get is called under the playlist read lock, delete under the write lock).
+	data := append([]byte(nil), mf.file.Bytes()...)
 	return bytes.NewReader(data), len(data), nil
 }
 
